@@ -1,6 +1,6 @@
 (* Property C15 — lookups feed the popularity estimator, lossily but accountably.
    Only statements here; proofs are in CacheLocal.v, CacheMetrics.v, TinyLFUProofs.v. *)
-From StrettoModel Require Import Base Metrics Sketch Bloom TinyLFU TinyLFUProofs Policy Ttl Store Cache CacheProofs CacheLocal CacheInv CacheMetrics.
+From StrettoModel Require Import Base Metrics Sketch Bloom TinyLFU TinyLFUProofs Policy Ttl Store Cache CacheProofs CacheLocal CacheInv CacheMetrics CacheNoPanic CacheNoDeadlock.
 Open Scope N_scope.
 
 (* Every lookup on an open cache — hit or miss: the store is consulted only in the client's next
@@ -101,3 +101,13 @@ Example C15_nonvacuous :
   | None => (0, 0, [], None, 0)
   end = (2, 0, [7], Some 2, 3).
 Proof. vm_compute. reflexivity. Qed.
+
+(* Progress of the policy worker: at its loop head with a batch queued it can always apply the head
+   batch — no panic, whatever the keys (NP / SO are the invariants of every reachable state, C20) —
+   so a flushed batch that was kept is eventually reflected as soon as the worker is scheduled. *)
+Theorem C15_worker_can_take_the_head_batch :
+  forall c st b r,
+  NP st -> SO st -> s_wpc st = WIdle -> s_pqueue st = b :: r ->
+  exists st' o, worker_step c st {| h_arm := Some ArmItem; h_oracle := []; h_tick_key := None |} = StepOk st' o.
+Proof. exact worker_can_take_the_head_batch. Qed.
+Print Assumptions C15_worker_can_take_the_head_batch.
